@@ -60,24 +60,25 @@ theorem classifyEntry_actD {cfg : Cfg} (h : NoPathOpts cfg) (full : Path) (x y :
 
 /-! ### keys do not depend on the prefix -/
 
-theorem recordKey_npo {cfg : Cfg} (h : NoPathOpts cfg) (p : Path) (kvs : List (Str × Val)) :
-    ∀ (fs : List Str) (acc : Str), recordKey cfg p kvs fs acc = recordKey cfg [] kvs fs acc
-  | [], acc => by simp [recordKey]
+theorem recordFields_npo {cfg : Cfg} (h : NoPathOpts cfg) (q : Path) (kvs : List (Str × Val)) :
+    ∀ (fs : List Str) (acc : List (Str × Val)), recordFields cfg q kvs fs acc = recordFields cfg [] kvs fs acc
+  | [], acc => by simp [recordFields]
   | f :: fs, acc => by
-    simp only [recordKey, h.tr, List.map_nil, xpathMatchFrom]
+    simp only [recordFields, transformAt_npo h]
     cases Val.lookup f kvs with
-    | none => exact recordKey_npo h p kvs fs acc
-    | some v => exact recordKey_npo h p kvs fs _
+    | none => exact recordFields_npo h q kvs fs acc
+    | some v => exact recordFields_npo h q kvs fs _
 
-theorem keyOf_npo {cfg : Cfg} (h : NoPathOpts cfg) (p : Path) (x : Val) :
-    keyOf cfg p x = keyOf cfg [] x := by
+theorem keyOf_npo {cfg : Cfg} (h : NoPathOpts cfg) (p : Path) (i : Nat) (x : Val) :
+    keyOf cfg p i x = keyOf cfg [] 0 x := by
   cases x <;> simp only [keyOf, transformAt_npo h]
-  rw [recordKey_npo h p]
+  rw [recordFields_npo h (p ++ [PSeg.idx i]), recordFields_npo h ([] ++ [PSeg.idx 0])]
 
 theorem keysOf_npo {cfg : Cfg} (h : NoPathOpts cfg) (p : Path) :
-    ∀ xs : List Val, keysOf cfg p xs = keysOf cfg [] xs
-  | [] => rfl
-  | x :: xs => by simp only [keysOf, keyOf_npo h p x, keysOf_npo h p xs]
+    ∀ (i : Nat) (xs : List Val), keysOf cfg p i xs = keysOf cfg [] 0 xs
+  | _, [] => rfl
+  | i, x :: xs => by
+    simp only [keysOf, keyOf_npo h p i x, keysOf_npo h p (i + 1) xs, keysOf_npo h [] 1 xs]
 
 /-! ### the walks as sequences of pair results -/
 
@@ -216,17 +217,17 @@ theorem sub_pref (cfg : Cfg) (h : NoPathOpts cfg) (site : Site) (p p' : Path) (v
   | .list c xs, w => by
     cases w with
     | list c' ys =>
-      simp only [sub, excluded_npo h, Bool.false_eq_true, ↓reduceIte, keysOf_npo h p, keysOf_npo h p']
+      simp only [sub, excluded_npo h, Bool.false_eq_true, ↓reduceIte, keysOf_npo h p 0, keysOf_npo h p' 0]
       split
       · rfl
       · split
         · rfl
         · split
           · exact directWalk_pref cfg h p p' _ _ _ _ 0 0 xs ys
-          · cases keysOf cfg [] xs with
+          · cases keysOf cfg [] 0 xs with
             | error e => rfl
             | ok ks =>
-              cases keysOf cfg [] ys with
+              cases keysOf cfg [] 0 ys with
               | error e => rfl
               | ok ko => exact keyedWalk_pref cfg h p p' _ _ _ _ 0 0 xs ks _ _
     | _ => simp [sub]
@@ -499,22 +500,22 @@ theorem keyedWalk_char (cfg : Cfg) (p : Path) (sa oa : Val) :
       rw [hfc]
       rfl
 
-theorem keysOf_length (cfg : Cfg) (p : Path) : ∀ (xs : List Val) (ks : List Str),
-    keysOf cfg p xs = .ok ks → ks.length = xs.length
-  | [], ks, h => by simp [keysOf] at h; subst h; rfl
-  | x :: xs, ks, h => by
+theorem keysOf_length (cfg : Cfg) (p : Path) : ∀ (i : Nat) (xs : List Val) (ks : List Str),
+    keysOf cfg p i xs = .ok ks → ks.length = xs.length
+  | _, [], ks, h => by simp [keysOf] at h; subst h; rfl
+  | i, x :: xs, ks, h => by
     simp only [keysOf] at h
-    cases hk : keyOf cfg p x with
+    cases hk : keyOf cfg p i x with
     | error e => rw [hk] at h; cases h
     | ok k =>
       rw [hk] at h
       simp only at h
-      cases hr : keysOf cfg p xs with
+      cases hr : keysOf cfg p (i + 1) xs with
       | error e => rw [hr] at h; cases h
       | ok ks' =>
         rw [hr] at h
         cases h
-        simp [keysOf_length cfg p xs ks' hr]
+        simp [keysOf_length cfg p (i + 1) xs ks' hr]
 
 theorem mkEntries_keys : ∀ (ks : List Str) (xs : List Val) (i : Nat), ks.length = xs.length →
     (mkEntries i ks xs).map (·.1) = ks
@@ -532,14 +533,14 @@ unique composite keys is: the results of the pairs with a common key, in the ord
 that the list itself is not excluded. -/
 theorem sub_keyed_char (cfg : Cfg) (hd : cfg.direct = false) (site : Site) (p : Path) (hx : excluded cfg p = false)
     (c c' : Cls) (xs ys : List Val) (ks ko : List Str)
-    (hks : keysOf cfg p xs = .ok ks) (hko : keysOf cfg p ys = .ok ko) (hn : ks.Nodup) (hno : ko.Nodup) :
+    (hks : keysOf cfg p 0 xs = .ok ks) (hko : keysOf cfg p 0 ys = .ok ko) (hn : ks.Nodup) (hno : ko.Nodup) :
     sub cfg site p (.list c xs) (.list c' ys) =
       seqR (matchedRes cfg p (.list .n0 xs) (.list .n0 ys) (mkEntries 0 ko ys) 0 ks xs)
         (.ok (keyedTail p
           ((mkEntries 0 ks xs).filter (fun e => (findKey e.1 (mkEntries 0 ko ys)).isNone))
           ((mkEntries 0 ko ys).filter (fun e => decide (e.1 ∉ ks))))) := by
-  have hl := keysOf_length cfg p xs ks hks
-  have hlo := keysOf_length cfg p ys ko hko
+  have hl := keysOf_length cfg p 0 xs ks hks
+  have hlo := keysOf_length cfg p 0 ys ko hko
   have := keyedWalk_char cfg p (.list .n0 xs) (.list .n0 ys) xs ks 0 [] (mkEntries 0 ko ys) hl hn
     (by intro e he; cases he) (by rw [mkEntries_keys ko ys 0 hlo]; exact hno)
   simp only [List.nil_append] at this
@@ -548,37 +549,37 @@ theorem sub_keyed_char (cfg : Cfg) (hd : cfg.direct = false) (site : Site) (p : 
 
 /-! ### the composite key as a pure function (no transform) -/
 
-def recKey (kvs : List (Str × Val)) : List Str → Str → Str
+/-- the key fields of a record when `transform` is empty -/
+def recFields (kvs : List (Str × Val)) : List Str → List (Str × Val) → List (Str × Val)
   | [], acc => acc
   | key :: rest, acc =>
     match Val.lookup key kvs with
-    | none => recKey kvs rest acc
-    | some v => recKey kvs rest ((if acc.isEmpty then acc else acc ++ [';']) ++ key ++ ['='] ++ pyStr v)
+    | none => recFields kvs rest acc
+    | some v => recFields kvs rest (setField key v acc)
 
 /-- the composite key of a list element when `transform` is empty -/
 def keyP (cfg : Cfg) : Val → Str
-  | .dict _ kvs => if cfg.ck.pats.isEmpty then [] else recKey kvs cfg.ck.pats []
+  | .dict _ kvs => fieldsKey (recFields kvs cfg.ck.pats [])
   | v => jsonVal v
 
-theorem recordKey_pure {cfg : Cfg} (h : NoPathOpts cfg) (p : Path) (kvs : List (Str × Val)) :
-    ∀ (fs : List Str) (acc : Str), recordKey cfg p kvs fs acc = .ok (recKey kvs fs acc)
-  | [], acc => by simp [recordKey, recKey]
+theorem recordFields_pure {cfg : Cfg} (h : NoPathOpts cfg) (q : Path) (kvs : List (Str × Val)) :
+    ∀ (fs : List Str) (acc : List (Str × Val)), recordFields cfg q kvs fs acc = recFields kvs fs acc
+  | [], acc => by simp [recordFields, recFields]
   | f :: fs, acc => by
-    simp only [recordKey, recKey, h.tr, List.map_nil, xpathMatchFrom]
+    simp only [recordFields, recFields, transformAt_npo h, id]
     cases Val.lookup f kvs with
-    | none => exact recordKey_pure h p kvs fs acc
-    | some v => exact recordKey_pure h p kvs fs _
+    | none => exact recordFields_pure h q kvs fs acc
+    | some v => exact recordFields_pure h q kvs fs _
 
-theorem keyOf_pure {cfg : Cfg} (h : NoPathOpts cfg) (p : Path) (x : Val) :
-    keyOf cfg p x = .ok (keyP cfg x) := by
+theorem keyOf_pure {cfg : Cfg} (h : NoPathOpts cfg) (p : Path) (i : Nat) (x : Val) :
+    keyOf cfg p i x = .ok (keyP cfg x) := by
   cases x <;> simp only [keyOf, keyP, transformAt_npo h, id]
-  rw [recordKey_pure h p]
-  split <;> rfl
+  rw [recordFields_pure h]
 
 theorem keysOf_pure {cfg : Cfg} (h : NoPathOpts cfg) (p : Path) :
-    ∀ xs : List Val, keysOf cfg p xs = .ok (xs.map (keyP cfg))
-  | [] => rfl
-  | x :: xs => by simp only [keysOf, keyOf_pure h p x, keysOf_pure h p xs, List.map_cons]
+    ∀ (i : Nat) (xs : List Val), keysOf cfg p i xs = .ok (xs.map (keyP cfg))
+  | _, [] => rfl
+  | i, x :: xs => by simp only [keysOf, keyOf_pure h p i x, keysOf_pure h p (i + 1) xs, List.map_cons]
 
 /-! ### target 2 (line counts) -/
 
@@ -665,7 +666,7 @@ theorem sub_keyed_diffs (cfg : Cfg) (h : NoPathOpts cfg) (hd : cfg.direct = fals
     (c c' : Cls) (xs ys : List Val)
     (hn : (xs.map (keyP cfg)).Nodup) (hno : (ys.map (keyP cfg)).Nodup) :
     dE (sub cfg site p (.list c xs) (.list c' ys)) = levelD cfg xs ys := by
-  rw [sub_keyed_char cfg hd site p (excluded_npo h p) c c' xs ys _ _ (keysOf_pure h p xs) (keysOf_pure h p ys) hn hno]
+  rw [sub_keyed_char cfg hd site p (excluded_npo h p) c c' xs ys _ _ (keysOf_pure h p 0 xs) (keysOf_pure h p 0 ys) hn hno]
   simp only [dE_seqR, dE_ok, keyedTail, levelD]
   rw [matched_dE h, mkEntries_filter_length]
 
@@ -884,24 +885,24 @@ theorem permKvs_hasKey (k : Str) {kvs kvs' : List (Str × Val)} (h : PermKvs kvs
     obtain ⟨v', hv', _⟩ := permKvs_lookup_some k kvs kvs' v h hl
     rw [hv']; rfl
 
-theorem recKey_permKvs {kvs kvs' : List (Str × Val)} (hk : PermKvs kvs kvs') :
-    ∀ (fs : List Str) (acc : Str), (∀ f ∈ fs, ∀ v, Val.lookup f kvs = some v → v.isScalar = true) →
-      recKey kvs fs acc = recKey kvs' fs acc
+theorem recFields_permKvs {kvs kvs' : List (Str × Val)} (hk : PermKvs kvs kvs') :
+    ∀ (fs : List Str) (acc : List (Str × Val)), (∀ f ∈ fs, ∀ v, Val.lookup f kvs = some v → v.isScalar = true) →
+      recFields kvs fs acc = recFields kvs' fs acc
   | [], _, _ => rfl
   | f :: fs, acc, hs => by
     have hs' : ∀ g ∈ fs, ∀ v, Val.lookup g kvs = some v → v.isScalar = true :=
       fun g hg => hs g (List.mem_cons_of_mem _ hg)
-    simp only [recKey]
+    simp only [recFields]
     cases hl : Val.lookup f kvs with
     | none =>
       rw [permKvs_lookup_none f kvs kvs' hk hl]
-      exact recKey_permKvs hk fs acc hs'
+      exact recFields_permKvs hk fs acc hs'
     | some v =>
       obtain ⟨v', hv', hp⟩ := permKvs_lookup_some f kvs kvs' v hk hl
       have := hp.eq_of_isScalar (hs f List.mem_cons_self v hl)
       subst this
       rw [hv']
-      exact recKey_permKvs hk fs _ hs'
+      exact recFields_permKvs hk fs _ hs'
 
 theorem keyP_permTree (cfg : Cfg) {x x' : Val} (hp : PermTree x x') (hi : itemOk cfg x) :
     keyP cfg x = keyP cfg x' := by
@@ -909,9 +910,7 @@ theorem keyP_permTree (cfg : Cfg) {x x' : Val} (hp : PermTree x x') (hi : itemOk
   | list c _ _ => simp [itemOk] at hi
   | dict c hk =>
     simp only [keyP]
-    split
-    · rfl
-    · exact recKey_permKvs hk _ _ hi
+    rw [recFields_permKvs hk _ _ hi]
   | _ => rfl
 
 theorem permList_keys (cfg : Cfg) : ∀ (xs xs' : List Val), PermList xs xs' → (∀ x ∈ xs, itemOk cfg x) →
